@@ -1283,6 +1283,23 @@ class RebaseInheritingObject(
             if isinstance(pos, tuple):
                 pos, ref = pos
 
+            if pos:
+                # An explicit position re-positions a base that is
+                # already there (this is how a change in the order of
+                # the bases is expressed in DDL).
+                moved = {
+                    b.name for b in new_bases
+                    if b.name in existing_bases
+                    and not (
+                        pos not in ('FIRST', 'LAST') and b.name == ref.name)
+                }
+                if moved:
+                    bases = [
+                        b for b in bases if b.get_name(schema) not in moved]
+                    existing_bases -= moved
+                    index = {
+                        b.get_name(schema): i for i, b in enumerate(bases)}
+
             if not pos or pos == 'LAST':
                 idx = len(bases)
             elif pos == 'FIRST':
@@ -1295,6 +1312,7 @@ class RebaseInheritingObject(
                     schema, context, name=b.name, sourcectx=b.sourcectx)
                 for b in new_bases if b.name not in existing_bases
             ]
+            existing_bases = {b.get_name(schema) for b in bases}
             index = {b.get_name(schema): i for i, b in enumerate(bases)}
 
         if not bases and default_base:
